@@ -33,7 +33,7 @@ ASSUMPTIONS = [
   "a quaternion whose squared norm underflows float32 (|q|<=1e-23) cannot be normalised in float32; it is exercised and "
   "reported under its own signature prefix 'underflow:' (MuJoCo float64 replaces |q|<1e-15 by the identity)",
 ]
-BUDGET = {"quick": 150, "thorough": 1500}
+BUDGET = {"quick": 240, "thorough": 1500}
 
 INTEGRATORS = ("Euler", "implicitfast", "implicit", "RK4")
 INT_ENUM = {"Euler": 0, "RK4": 1, "implicit": 2, "implicitfast": 3}
@@ -73,7 +73,7 @@ P_BOUNCE = gen.profile(
 
 def cases(tier, seed):
   out = []
-  n = 72 if tier == "quick" else 700
+  n = 40 if tier == "quick" else 700
   for i in range(n):
     integ = INTEGRATORS[i % 4]
     ts = TIMESTEPS[(i // 4) % 5]
@@ -82,7 +82,7 @@ def cases(tier, seed):
       horizon = 200
     else:
       horizon = (2000, 2000, 20000, 500)[(i // 20) % 4]
-    out.append({"id": f"{kind}{seed}_{i}", "kind": kind, "seed": seed * 100000 + i, "integrator": integ, "timestep": ts, "horizon": horizon, "underflow": int(i % 12 == 5), "weight": max(1, horizon // 200) * (2 if integ == "RK4" else 1)})
+    out.append({"id": f"{kind}{seed}_{i}", "kind": kind, "seed": seed * 100000 + i, "integrator": integ, "timestep": ts, "horizon": horizon, "underflow": int(i % 8 == 5), "weight": max(1, horizon // 200) * (2 if integ == "RK4" else 1)})
   return out
 
 
